@@ -122,6 +122,8 @@ pub enum Echo {
     Duplicate,
     /// echo the first n promptly, then never
     StopAfter(usize),
+    /// echo the first Keep Alive correctly, every later one with the id of its predecessor
+    Previous,
 }
 
 #[derive(Clone, Debug, PartialEq)]
@@ -242,6 +244,7 @@ pub struct Client<'a, T: Transport> {
     sends: usize,
     cookie_requests: usize,
     keep_alives: usize,
+    last_keep_alive_id: Option<u64>,
     scheduled: Vec<Scheduled>,
     in_put: bool,
     seq: u64,
@@ -266,6 +269,7 @@ impl<'a, T: Transport> Client<'a, T> {
             sends: 0,
             cookie_requests: 0,
             keep_alives: 0,
+            last_keep_alive_id: None,
             scheduled: Vec::new(),
             in_put: false,
             seq: 0,
@@ -408,7 +412,12 @@ impl<'a, T: Transport> Client<'a, T> {
                             push(now, id, "")
                         }
                     }
+                    Echo::Previous => {
+                        let prev = self.last_keep_alive_id.unwrap_or(id);
+                        push(now, prev, if prev == id { "" } else { "-previous" })
+                    }
                 }
+                self.last_keep_alive_id = Some(id);
             }
             _ => {}
         }
